@@ -6,6 +6,7 @@ CONSTANTS
   EntryOf <- MCEntryOf
   MaxCookie = 5
   MaxOps = 100
+  Lifetimes = FALSE
 VIEW view
 INVARIANTS InvView InvNoPanic InvEvents
 CHECK_DEADLOCK FALSE
